@@ -71,7 +71,7 @@ def replay(ctx, res, name, stride=1, tables=False):
     recs = [l for l in open(rec)]
     rejected = 0
     if recs:
-        tres = ctx.tlc("BoxTreeTrace", "BoxTreeTrace.cfg", workers=16, env={"TRACE_FILE": rec}, timeout=3000, heap_gb=12)
+        tres = ctx.tlc("BoxTreeTrace", "BoxTreeTrace.cfg", workers=16, env={"TRACE_FILE": rec}, timeout=6000, heap_gb=12)
         if tres.distinct != len(recs):
             raise MachineryError("TLC validated %d of %d box trees" % (tres.distinct, len(recs)))
         txt = open(tres.out_path, errors="replace").read()
@@ -94,7 +94,7 @@ def run(ctx):
     cov = {}
     simple = ["block", "inline", "inline-block", "none"]
     res = ctx.tlc("BoxTree", None, workers=16, cfg_text=CFG % (4 if not thorough else 5, dset(simple), "FALSE", "SPECIFICATION Spec", "GenWellFormed"), timeout=6000, heap_gb=12)
-    cov["block-inline-subset"] = replay(ctx, res, "simple", stride=4 if not thorough else 8)
+    cov["block-inline-subset"] = replay(ctx, res, "simple", stride=4 if not thorough else 16)
     res = ctx.tlc("BoxTree", None, workers=16, cfg_text=CFG % (2, dset(ALL), "FALSE", "SPECIFICATION Spec", ""), timeout=3000, heap_gb=12)
     cov["all-displays-2-elements"] = replay(ctx, res, "all2")
     res = ctx.tlc("BoxTree", None, workers=16, cfg_text=CFG % (3, dset(ALL), "FALSE", "SPECIFICATION Spec", ""), timeout=3000, heap_gb=12)
